@@ -145,7 +145,7 @@ def task_reply(n: int, pending: bool) -> bool:
     d.handle_orphaned_responses_is_scheduled = False
     log = []
     import types
-    d.state_engine = types.SimpleNamespace(event_dispatcher=stubs.RecDispatcher(log), branch_metadata={},
+    d.state_engine = types.SimpleNamespace(event_dispatcher=stubs.RecDispatcher(log), branch_metadata={}, executions={},
                                            update_execution_history=lambda *a, **k: log.append(("history", a[2], a[3])))
     d.reply_to = types.SimpleNamespace(name="rq")
     results = []
